@@ -64,8 +64,84 @@ def _cache_size(f):
         return None
 
 
+def _lark_lexers():
+    """Every per-state lexer of every lark parser the library can reach: the process-wide singleton and the
+    parsers the harness memoises for it.  lark builds a lexer's scanner and callback table lazily on first use
+    (BasicLexer.scanner / _build_scanner); that laziness is process-wide mutable state shared by every
+    Environment, so an execution must start from the lexers as the zygote had them, not as the previous
+    execution left them."""
+    out, seen = [], set()
+    parsers = []
+    cp = sys.modules.get("celpy.celparser")
+    if cp is not None:
+        parsers.append(getattr(getattr(cp, "CELParser", None), "CEL_PARSER", None))
+    try:
+        from .. import repo
+        parsers.extend(repo.LARK_MEMO.values())
+    except Exception:  # noqa
+        pass
+    for pi, parser in enumerate(parsers):
+        lx = getattr(getattr(parser, "parser", None), "lexer", None)
+        if lx is None:
+            continue
+        states = [("root", getattr(lx, "root_lexer", None))] + sorted(((str(k), v) for k, v in getattr(lx, "lexers", {}).items()), key=lambda kv: kv[0])
+        for name, lexer in states:
+            if lexer is None or id(lexer) in seen or not hasattr(lexer, "_scanner"):
+                continue
+            seen.add(id(lexer))
+            out.append((f"lark[{getattr(getattr(parser, 'options', None), 'tree_class', type(None)).__name__}].lexer[{name}]", lexer))
+    return out
+
+
+def _unwrap(obj):
+    """Function objects behind a module-level or class-level attribute (staticmethod, classmethod, property, wrappers)."""
+    out = []
+    for cand in (obj, getattr(obj, "__func__", None), getattr(obj, "fget", None), getattr(obj, "fset", None), getattr(obj, "fdel", None), getattr(obj, "func", None)):
+        if cand is not None and hasattr(cand, "__code__") and hasattr(cand, "__globals__"):
+            out.append(cand)
+    return out
+
+
+def _function_containers(snap, seen_fn, seen, label, f, depth=0):
+    """Mutable containers a function carries with it: default arguments (``def f(x, memo={})``), closure cells (a memo
+    table inside a decorator) and function attributes (``f.cache = {}``); followed through wrapped / enclosed functions.
+    Like module- and class-level containers they outlive a call and are shared by every Environment."""
+    if id(f) in seen_fn or depth > 6:
+        return
+    seen_fn.add(id(f))
+    cands = []
+    for i, d in enumerate(getattr(f, "__defaults__", None) or ()):
+        cands.append((f"{label}<default {i}>", d))
+    for k, d in (getattr(f, "__kwdefaults__", None) or {}).items():
+        cands.append((f"{label}<default {k}>", d))
+    for k, d in list(getattr(f, "__dict__", {}).items()):
+        cands.append((f"{label}<attr {k}>", d))
+    names = getattr(getattr(f, "__code__", None), "co_freevars", ())
+    for nm, cell in zip(names, getattr(f, "__closure__", None) or ()):
+        try:
+            d = cell.cell_contents
+        except ValueError:
+            continue
+        cands.append((f"{label}<closure {nm}>", d))
+        if _copy(d) is not None:
+            snap["cells"].append((f"{label}<closure {nm}>", cell, d))
+    for nm, d in cands:
+        c = _copy(d)
+        if c is not None:
+            if id(d) not in seen:
+                seen.add(id(d))
+                snap["containers"].append((nm, d, c))
+        else:
+            for g in _unwrap(d):
+                if getattr(g, "__module__", None) in MODULES or g is getattr(f, "__wrapped__", None) or "closure" in nm:
+                    _function_containers(snap, seen_fn, seen, nm, g, depth + 1)
+
+
 def snapshot():
-    snap = {"mods": [], "classes": [], "containers": [], "caches": [], "reclimit": sys.getrecursionlimit()}
+    snap = {"mods": [], "classes": [], "containers": [], "caches": [], "reclimit": sys.getrecursionlimit(), "larklex": [], "cells": []}
+    for name, lexer in _lark_lexers():
+        cb = getattr(lexer, "callback", None)
+        snap["larklex"].append((name, lexer, lexer._scanner, cb, list(cb.items()) if isinstance(cb, dict) else None))
     seen = set()
     for mname, mod in _mods():
         d = vars(mod)
@@ -88,6 +164,17 @@ def snapshot():
                 if c is not None and id(obj) not in seen and not name.startswith("__"):
                     seen.add(id(obj))
                     snap["containers"].append((f"{mname}.{name}", obj, c))
+    seen_fn = set()
+    for mname, mod in _mods():
+        for name, obj in list(vars(mod).items()):
+            if isinstance(obj, type) and getattr(obj, "__module__", None) == mname:
+                for k, v in list(vars(obj).items()):
+                    for f in _unwrap(v):
+                        _function_containers(snap, seen_fn, seen, f"{mname}.{name}.{k}", f)
+            else:
+                for f in _unwrap(obj):
+                    if getattr(f, "__module__", None) in MODULES:
+                        _function_containers(snap, seen_fn, seen, f"{mname}.{name}", f)
     return snap
 
 
@@ -122,6 +209,13 @@ def restore(snap):
                     setattr(cls, k, v.__func__ if False else v)
                 except Exception:  # noqa
                     pass
+    for name, cell, obj in snap.get("cells", ()):
+        try:
+            if cell.cell_contents is not obj:
+                changed.append(f"{name} (rebound)")
+                cell.cell_contents = obj
+        except ValueError:
+            cell.cell_contents = obj
     for name, obj, c in snap["containers"]:
         if not _same(c, obj):
             changed.append(f"{name} (contents)")
@@ -138,6 +232,17 @@ def restore(snap):
     if sys.getrecursionlimit() != snap["reclimit"]:
         changed.append("sys.recursionlimit")
         sys.setrecursionlimit(snap["reclimit"])
+    nlex = 0
+    for name, lexer, scanner, cb, items in snap.get("larklex", ()):
+        if lexer._scanner is not scanner or getattr(lexer, "callback", None) is not cb or (items is not None and list(cb.items()) != items):
+            nlex += 1
+            lexer._scanner = scanner
+            lexer.callback = cb
+            if items is not None:
+                cb.clear()
+                cb.update(items)
+    if nlex:
+        changed.append(f"lark lexer scanners built lazily ({nlex} lexer states)")
     return changed
 
 
@@ -178,4 +283,7 @@ def diff_names(snap):
             changed.append(f"{name}#cache={_cache_size(f)}")
     if sys.getrecursionlimit() != snap["reclimit"]:
         changed.append(f"recursionlimit={sys.getrecursionlimit()}")
+    built = [i for i, (name, lexer, scanner, cb, items) in enumerate(snap.get("larklex", ())) if lexer._scanner is not scanner or getattr(lexer, "callback", None) is not cb]
+    if built:
+        changed.append("larklex=" + ",".join(map(str, built)))
     return sorted(changed)
